@@ -242,6 +242,36 @@ struct Engine
                 break;
         }
         inspect();
+        // "valid": an operand with unspecified contents is still a vector - after clear() it takes capacity() elements
+        // (spans of length 0 need no payload budget) inside the memory it owns, with its own fixed sizes
+        for (int t = 0; t < 2; ++t)
+        {
+            if (!m[t].present || !m[t].unspec || m[t].moved) continue;
+            begin_op();
+            LIB(v[t]->clear());
+            const std::size_t cap = v[t]->capacity();
+            auto lf = lib_fixed_sizes(std::as_const(*v[t]), std::make_index_sequence<LS::NF>{});
+            std::vector<std::size_t> fixed(lf.begin(), lf.end());
+            bool absurd = cap > 8;
+            for (auto f : fixed) absurd = absurd || f > 8;
+            if (absurd)
+            {
+                report("VAL", "values", "capacity-after-fault", "after a failed assignment capacity() == %zu or a fixed size is out of any range used", cap);
+                continue;
+            }
+            std::vector<Elem> filled;
+            for (std::size_t i = 0; i < cap; ++i)
+            {
+                Elem e = LS::make_elem(mex() + static_cast<int>(i), std::vector<std::size_t>(LS::NV, 0), fixed);
+                LS::emplace(*v[t], e);
+                filled.push_back(e);
+            }
+            if (v[t]->size() != cap) report("VAL", "values", "fill-after-fault", "filled %zu elements after a failed assignment, size() == %zu", cap, v[t]->size());
+            for (std::size_t i = 0; i < cap && i < v[t]->size(); ++i)
+                if (LS::read(std::as_const(*v[t])[i]) != filled[i])
+                    report("VAL", "values", "fill-after-fault", "element %zu written after a failed assignment reads back differently", i);
+            LIB(v[t]->clear());
+        }
         // "assignable": an operand whose contents are unspecified after the failure must accept a (now succeeding)
         // assignment and hold the assigned value afterwards, or at least a clear()
         for (int t = 0; t < 2; ++t)
@@ -785,9 +815,14 @@ struct Engine
             {
                 pre_empty = m[t].el.empty();
                 const Vec& cv = *v[t];
+                // empty vectors with OTHER fixed sizes, and a default-constructed one: no elements either
+                std::vector<std::size_t> other_fixed = m[t].fixed;
+                for (auto& f : other_fixed) f = f + 1;
                 L().in_lib = true;
                 Vec empty_one = make_temp(0, 0, m[t].fixed, m[t].arena);
                 Vec empty_two = make_temp(1, m[t].budget, m[t].fixed, m[t].arena);
+                Vec empty_three = make_temp(2, m[t].budget, other_fixed, m[t].arena);
+                Vec empty_four;
                 L().in_lib = false;
                 const bool is_empty = m[t].el.empty();
                 bool r;
@@ -797,7 +832,7 @@ struct Engine
                 if (r) report("VAL", "values", "cmp:reflexive", "v != v is true");
                 LIB(r = (cv < cv));
                 if (r) report("VAL", "values", "cmp:irreflexive", "v < v is true");
-                for (const Vec* e : {&empty_one, &empty_two})
+                for (const Vec* e : {&empty_one, &empty_two, &empty_three, &empty_four})
                 {
                     LIB(r = (cv == *e));
                     if (r != is_empty) report("VAL", "values", "cmp:eq-empty", "v == empty is %d, model %d", r, is_empty);
@@ -2073,12 +2108,20 @@ struct Engine
 #if HAVE_COPY
         if constexpr (COPYABLE)
         {
+            // a copy takes its allocator from select_on_container_copy_construction: allocating through the shared source's
+            // own allocator instead would make every reader use (and modify) the same memory resource
+            const int copy_arena = (TR::soccc && !TR::ae) ? cs.get_allocator().arena() + 100 : cs.get_allocator().arena();
+            int got_arena = copy_arena;
             fp_run("copy-construct", shared, false,
                    [&]
                    {
                        Vec d(cs);
+                       got_arena = d.get_allocator().arena();
                        return static_cast<long>(d.size());
                    });
+            if (got_arena != copy_arena)
+                report("C19", "footprint", "copy-uses-source-allocator:vector",
+                       "a copy of the shared vector allocates through arena %d, select_on_container_copy_construction gives %d", got_arena, copy_arena);
 #if HAVE_CMP
             {
                 L().in_lib = true;
@@ -2161,12 +2204,19 @@ struct Engine
                 unsigned char elem_before[sizeof(El)];
                 std::memcpy(elem_before, static_cast<const void*>(&se), sizeof(El));
                 fp_run("element.read", sh3, false, [&] { return touch(typename Vec::const_reference{ce}); });
+                const int ecopy_arena = (TR::soccc && !TR::ae) ? ce.get_allocator().arena() + 100 : ce.get_allocator().arena();
+                int egot_arena = ecopy_arena;
                 fp_run("element.copy-construct", sh3, false,
                        [&]
                        {
                            El c(ce);
+                           egot_arena = c.get_allocator().arena();
                            return touch(typename Vec::const_reference{std::as_const(c)});
                        });
+                if (egot_arena != ecopy_arena)
+                    report("C19", "footprint", "copy-uses-source-allocator:element",
+                           "a copy of the shared element allocates through arena %d, select_on_container_copy_construction gives %d", egot_arena,
+                           ecopy_arena);
                 fp_run("element.copy-construct-with-allocator", sh3, false,
                        [&]
                        {
